@@ -157,6 +157,39 @@ func (c *Check) fixedC11() []*plan.Plan {
 		}
 	}
 	out = append(out, c.probePlans(&run)...)
+	// (1c) the speed of the machine: the same calls on simulated CPUs from very fast to very slow, and with
+	// the calling thread descheduled now and then; the reference takes no simulated time at all
+	{
+		var cd []gen.GenDoc
+		for i, n := range []int{70, 130, 400, 900} {
+			cd = append(cd, gen.LinkFarm(uint64(0xc9+i), n))
+		}
+		cd = append(cd, gen.IndexPage(300), gen.PagerDoc(0x11c1), gen.PagerDoc(0x11c2))
+		cd = append(cd, docs[:min(4, len(docs))]...)
+		for di, d := range cd {
+			c.noteDoc(d)
+			url := d.URL
+			if url == "" {
+				url = "http://example.com/article"
+			}
+			for ci, cost := range gen.CPUCosts {
+				if (ci+di)%2 == 1 && c.tier != "thorough" {
+					continue
+				}
+				p := c.newPlan("cpu-speed", run, uint64(di*100+ci), "bubble")
+				run++
+				p.Docs = []plan.Doc{plan.NewDoc("d0", d.Bytes, d.Origin)}
+				p.Trees = []plan.Tree{{ID: "t0", Doc: "d0", Root: "document"}}
+				p.Options = []plan.Opt{optWithURL("o0", url, 0, 0), optWithURL("o1", url, 1, 0)}
+				p.Tasks = [][]plan.Op{{{Op: "Apply", Tree: "t0", Opt: "o0"}, {Op: "Reader", Doc: "d0", Opt: "o1"}}}
+				p.Schedule.YieldCostNs = cost
+				if ci%3 == 2 {
+					p.Schedule.Stalls = [][2]int64{{int64(400 + 97*di), 2_000_000_137}, {int64(9000 + 11*di), 700_000_731}}
+				}
+				out = append(out, p)
+			}
+		}
+	}
 	// (2) histories: the corpus in one process, twice, mixed entry points, a failing call in between
 	{
 		p := c.newPlan("history", run, 0, "bubble")
@@ -310,7 +343,37 @@ func (c *Check) fixedC11() []*plan.Plan {
 }
 
 func (c *Check) randC11(r *gen.Rand, run int, seed uint64) *plan.Plan {
-	batch := gen.Pick(r, []string{"maporder", "maporder", "history", "delivery", "childorder", "pagers"})
+	batch := gen.Pick(r, []string{"maporder", "maporder", "history", "delivery", "childorder", "pagers", "cpu-speed"})
+	if batch == "cpu-speed" {
+		d := gen.RandDoc(r)
+		switch r.Intn(4) {
+		case 0:
+			d = gen.LinkFarm(r.U64(), r.Range(65, 1200))
+		case 1:
+			d = gen.PagerDoc(r.U64())
+		}
+		c.noteDoc(d)
+		p := c.newPlan(batch, run, seed, "bubble")
+		p.Docs = []plan.Doc{plan.NewDoc("d0", d.Bytes, d.Origin)}
+		p.Trees = []plan.Tree{{ID: "t0", Doc: "d0", Root: "document"}}
+		o := gen.RandOpt(r, "o0", d.URL)
+		o.Flags = 0
+		if d.URL != "" && r.P(3, 4) {
+			o.URL, o.Skip = sp(d.URL), false
+		}
+		p.Options = []plan.Opt{o}
+		p.Tasks = [][]plan.Op{{{Op: gen.Pick(r, []string{"Apply", "Reader", "File"}), Tree: "t0", Doc: "d0", Opt: "o0"}}}
+		if p.Tasks[0][0].Op == "Apply" {
+			p.Tasks[0][0].Doc = ""
+		} else {
+			p.Tasks[0][0].Tree = ""
+		}
+		p.Schedule.YieldCostNs = gen.Pick(r, gen.CPUCosts)
+		if r.P(1, 3) {
+			p.Schedule.Stalls = gen.RandStalls(r, 30000)
+		}
+		return p
+	}
 	if batch == "pagers" {
 		q := c.pagerPlan(r, run, seed, true)
 		q.Batch = "maporder"
@@ -592,6 +655,13 @@ func (c *Check) fixedC13() []*plan.Plan {
 			run++
 		}
 	}
+	// element names in their degenerate forms, pages without visible text, pagers inside wrappers: every log flag at once
+	probes := append(append(gen.TagProbeDocs(), gen.DegenerateDocs(24)...), gen.WrappedPagerDocs()...)
+	for di, d := range probes {
+		c.noteDoc(d)
+		out = append(out, c.c13Variant(run, uint64(5000+di), d, d.URL, uint(di%2), di%5 == 4, 31, []string{"null", "file"}[di%2], nil, "Apply"))
+		run++
+	}
 	return out
 }
 
@@ -623,7 +693,12 @@ func (c *Check) randC13(r *gen.Rand, run int, seed uint64) *plan.Plan {
 	if (entry == "Reader" || entry == "URL") && r.P(2, 3) {
 		rp = gen.RandReader(r, len(d.Bytes), false, false)
 	}
-	return c.c13Variant(run, seed, d, url, algo, r.P(1, 5), flags, sink, stalls, entry, rp)
+	q := c.c13Variant(run, seed, d, url, algo, r.P(1, 5), flags, sink, stalls, entry, rp)
+	if r.P(1, 3) {
+		// computing takes simulated time: whatever the timing log prints is not all zeroes
+		q.Schedule.YieldCostNs = gen.Pick(r, gen.CPUCosts)
+	}
+	return q
 }
 
 // ---------------------------------------------------------------- C01
@@ -901,6 +976,9 @@ func (c *Check) randC01(r *gen.Rand, run int, seed uint64) *plan.Plan {
 	if r.P(1, 3) {
 		p.Schedule.Stalls = gen.RandStalls(r, 20000)
 	}
+	if r.P(1, 4) {
+		p.Schedule.YieldCostNs = gen.Pick(r, gen.CPUCosts)
+	}
 	p.Sink = gen.Pick(r, gen.Sinks)
 	return p
 }
@@ -962,8 +1040,12 @@ func (c *Check) fixedC10() []*plan.Plan {
 func (c *Check) probePlans(run *int) []*plan.Plan {
 	var out []*plan.Plan
 	docs := gen.AttrProbeDocs()
+	// element names in their degenerate forms; pages without visible text; pagers inside wrappers
+	docs = append(docs, gen.TagProbeDocs()...)
+	docs = append(docs, gen.DegenerateDocs(24)...)
+	docs = append(docs, gen.WrappedPagerDocs()...)
 	for di := 0; di < len(docs); di += 3 {
-		p := c.newPlan("attr-probes", *run, uint64(di), c.kernelName())
+		p := c.newPlan("probes", *run, uint64(di), c.kernelName())
 		*run++
 		var ops []plan.Op
 		for k := di; k < di+3 && k < len(docs); k++ {
@@ -1162,17 +1244,43 @@ func (c *Check) fixedC12() []*plan.Plan {
 		out = append(out, c.racePlan("different-docs", run, uint64(i), docs, r, 4, 2, []int{30, 150, 400, 0}[i], false, false, i%3))
 		run++
 	}
+	// (bubble kernel) the same page in eight calls at once on simulated CPUs from very fast to very slow:
+	// what a call sees of the clock depends on how much the other calls compute in between.
+	// The solo reference runs on the same simulated CPU.
+	for ci, cost := range gen.CPUCosts {
+		d := gen.LinkFarm(uint64(0xc12+ci), []int{400, 150, 700, 90}[ci%4])
+		if ci == 0 {
+			c.noteDoc(d)
+		}
+		p := c.newPlan("cpu-time", run, uint64(ci), "bubble")
+		run++
+		p.Docs = []plan.Doc{plan.NewDoc("d0", d.Bytes, d.Origin)}
+		p.Options = []plan.Opt{optWithURL("os", d.URL, uint(ci%2), 0)}
+		nt := 8
+		for t := 0; t < nt; t++ {
+			id := fmt.Sprintf("t%d", t)
+			p.Trees = append(p.Trees, plan.Tree{ID: id, Doc: "d0", Root: "document"})
+			p.Tasks = append(p.Tasks, []plan.Op{{Op: "Apply", Tree: id, Opt: "os"}})
+		}
+		p.Schedule = gen.RandSchedule(gen.NewRand(uint64(0x7c+ci)), nt, []int{40, 300}[ci%2], 400)
+		p.Schedule.After = "cycle"
+		p.Schedule.YieldCostNs = cost
+		out = append(out, p)
+	}
+	// the densest heavy plan runs in both tiers (about 5 s); the other three in the thorough tier only
 	if c.tier == "thorough" {
-		out = append(out, c.heavyRacePlans(&run)...)
+		out = append(out, c.heavyRacePlans(&run, 4)...)
+	} else {
+		out = append(out, c.heavyRacePlans(&run, 1)...)
 	}
 	return out
 }
 
-// heavyRacePlans (thorough tier): several multi-megabyte pages in flight at once — whatever the
+// heavyRacePlans: several multi-megabyte pages in flight at once — whatever the
 // library budgets, pools or limits per process is under pressure here.
-func (c *Check) heavyRacePlans(run *int) []*plan.Plan {
+func (c *Check) heavyRacePlans(run *int, n int) []*plan.Plan {
 	var out []*plan.Plan
-	for k := 0; k < 4; k++ {
+	for k := 0; k < n; k++ {
 		p := c.newPlan("heavy-pages", *run, uint64(k), "race")
 		p.Plain = true
 		*run++
@@ -1199,6 +1307,39 @@ func (c *Check) heavyRacePlans(run *int) []*plan.Plan {
 }
 
 func (c *Check) randC12(r *gen.Rand, run int, seed uint64) *plan.Plan {
+	if r.P(1, 8) {
+		// bubble kernel: concurrent calls on a simulated CPU of random speed
+		nd := r.Range(1, 3)
+		p := c.newPlan("cpu-time", run, seed, "bubble")
+		for i := 0; i < nd; i++ {
+			d := gen.RandDoc(r)
+			switch r.Intn(3) {
+			case 0:
+				d = gen.LinkFarm(r.U64(), r.Range(65, 800))
+			case 1:
+				d = gen.PagerDoc(r.U64())
+			}
+			c.noteDoc(d)
+			id := fmt.Sprintf("d%d", i)
+			p.Docs = append(p.Docs, plan.NewDoc(id, d.Bytes, d.Origin))
+			u := d.URL
+			if u == "" {
+				u = "http://example.com/story/page/2"
+			}
+			p.Options = append(p.Options, optWithURL("o"+id, u, uint(r.Intn(2)), 0))
+		}
+		nt := r.Range(2, 8)
+		for t := 0; t < nt; t++ {
+			di := t % nd
+			id := fmt.Sprintf("t%d", t)
+			p.Trees = append(p.Trees, plan.Tree{ID: id, Doc: fmt.Sprintf("d%d", di), Root: "document"})
+			p.Tasks = append(p.Tasks, []plan.Op{{Op: "Apply", Tree: id, Opt: fmt.Sprintf("od%d", di)}})
+		}
+		p.Schedule = gen.RandSchedule(r, nt, gen.Pick(r, []int{20, 100, 500, 3000}), 400)
+		p.Schedule.After = "cycle"
+		p.Schedule.YieldCostNs = gen.Pick(r, gen.CPUCosts)
+		return p
+	}
 	nd := r.Range(1, 3)
 	var docs []gen.GenDoc
 	for i := 0; i < nd; i++ {
